@@ -3,6 +3,7 @@ package main
 import (
 	"fmt"
 	"runtime"
+	"sort"
 	"strings"
 
 	"gonum.org/v1/gonum/graph"
@@ -89,10 +90,18 @@ func intervals(c *chk, b *built, e int, heads []int, members []uint8, idom [maxN
 		for k, h := range heads {
 			wantByHead[h] = members[k]
 		}
-		// partition laws and equality with the definition.
+		// first pass: the intervals must partition the nodes. It comes first
+		// (and in ID order) so that the classification of a failure does not
+		// depend on the iteration order of the Intervals map.
+		ids := make([]int64, 0, len(ig.Intervals))
+		for id := range ig.Intervals {
+			ids = append(ids, id)
+		}
+		sort.Slice(ids, func(i, j int) bool { return ids[i] < ids[j] })
 		var seen uint8
-		ivOf := map[int]int64{} // node index -> interval id
-		for id, iv := range ig.Intervals {
+		masks := map[int64]uint8{}
+		for _, id := range ids {
+			iv := ig.Intervals[id]
 			if iv.ID() != id {
 				c.failf("Intervals entry=%d: Intervals[%d].ID()=%d", e, id, iv.ID())
 				return
@@ -107,6 +116,17 @@ func intervals(c *chk, b *built, e int, heads []int, members []uint8, idom [maxN
 				return
 			}
 			seen |= m
+			masks[id] = m
+		}
+		if seen != s.all() {
+			c.failClass(clsHeaderLost, "Intervals entry=%d: nodes %s are in no interval", e, maskStr(s.all()&^seen))
+			return
+		}
+		// second pass: interval laws and equality with the definition.
+		ivOf := map[int]int64{} // node index -> interval id
+		for _, id := range ids {
+			iv := ig.Intervals[id]
+			m := masks[id]
 			h := -1
 			if iv.Head() != nil {
 				h = b.ix(iv.Head().ID())
@@ -163,10 +183,6 @@ func intervals(c *chk, b *built, e int, heads []int, members []uint8, idom [maxN
 				}
 			}
 		}
-		if seen != s.all() {
-			c.failClass(clsHeaderLost, "Intervals entry=%d: nodes %s are in no interval", e, maskStr(s.all()&^seen))
-			return
-		}
 		if len(ig.Intervals) != len(heads) {
 			c.failf("Intervals entry=%d: %d intervals, definition gives %d (heads %v)", e, len(ig.Intervals), len(heads), heads)
 			return
@@ -180,8 +196,8 @@ func intervals(c *chk, b *built, e int, heads []int, members []uint8, idom [maxN
 				}
 			}
 		}
-		for a := range ig.Intervals {
-			for bb := range ig.Intervals {
+		for _, a := range ids {
+			for _, bb := range ids {
 				if a == bb {
 					continue
 				}
